@@ -13,7 +13,10 @@
 (* (cds_list_for_each_entry_rcu, cds_hlist_for_each_entry_rcu).  The load / *)
 (* store sequences are those of the instrumented build the driver           *)
 (* harness/d_rculist.c executes (gcc -O1 reuses head->next, head->prev,     *)
-(* elem->prev and _new->prev where noted).                                  *)
+(* elem->prev and _new->prev where noted; the hooked store evaluates its    *)
+(* address before its value).  Every recorded execution is checked against  *)
+(* these sequences, so a change of compiler behaviour shows up as a         *)
+(* rejected trace, never silently.                                          *)
 (*                                                                         *)
 (* Threads execute the operation sequences of a scenario (Prog).  One       *)
 (* thread (the updater) executes update operations, the others traversals.  *)
@@ -23,7 +26,9 @@
 (*   "hadd" n   cds_hlist_add_head_rcu(n, L)   "hdel" n  cds_hlist_del_rcu(n) *)
 (*   "free" n   full barrier; abstract grace period; n is freed           *)
 (*   "trav"     rcu_read_lock; cds_list_for_each_entry_rcu; rcu_read_unlock *)
-(*   "htrav"    the same with cds_hlist_for_each_entry_rcu                  *)
+(*   "travp"    the same with cds_list_for_each_rcu                         *)
+(*   "htrav" "htrav2" "htravp"  the same with cds_hlist_for_each_entry_rcu, *)
+(*              cds_hlist_for_each_entry_rcu_2, cds_hlist_for_each_rcu      *)
 (* Payload: n.key, written (plain store) before the node is published.      *)
 (*                                                                         *)
 (* Memory model: TSO = TRUE gives every thread a FIFO store buffer.  With   *)
@@ -38,10 +43,17 @@
 (* once every section open at its beginning has ended.                      *)
 (*                                                                         *)
 (* Ghost monitors (bad collects the names of violated clauses):             *)
-(*   pres[r] / ever[r]  nodes reachable from the head in shared memory at   *)
-(*                      EVERY / at SOME instant since the traversal's first *)
-(*                      load; updated by every step that changes memory     *)
-(*   ord                all nodes ever inserted, in list-position order     *)
+(*   member             the nodes logically in the list: a node enters      *)
+(*                      (leaves) at the instant the publication (unlink)    *)
+(*                      store of its operation reaches shared memory -- the *)
+(*                      store-buffer entry of that store carries a ghost    *)
+(*                      tag which is applied when the entry is committed    *)
+(*   ord                all nodes ever inserted, in list-position order;    *)
+(*                      AbsSeq = ord restricted to member is the abstract   *)
+(*                      list; MemConsistent: the ->next chain in shared     *)
+(*                      memory spells exactly AbsSeq at every instant       *)
+(*   pres[r] / ever[r]  nodes that were members at EVERY / at SOME instant  *)
+(*                      since the first load of r's current traversal       *)
 (*   alive              FALSE once a node is freed                          *)
 (***************************************************************************)
 EXTENDS Naturals, Sequences, FiniteSets, TLC
@@ -72,8 +84,11 @@ FlOf == [f \in Flushers |-> CHOOSE t \in Threads : FlId(t) = f]
 UpdOps == {"add", "addt", "del", "repl", "hadd", "hdel", "free"}
 
 ASSUME Kind \in {"list", "hlist"}
-ASSUME \A o \in AllOps : (Kind = "list" => o.op \in {"add", "addt", "del", "repl", "free", "trav"})
-                      /\ (Kind = "hlist" => o.op \in {"hadd", "hdel", "free", "htrav"})
+\* traversal macros: all of them are "rcu_dereference(head->next), then rcu_dereference(pos->next) until the end marker"
+ListTravs == {"trav", "travp"}               \* cds_list_for_each_entry_rcu, cds_list_for_each_rcu
+HlistTravs == {"htrav", "htrav2", "htravp"}  \* cds_hlist_for_each_entry_rcu, cds_hlist_for_each_entry_rcu_2, cds_hlist_for_each_rcu
+ASSUME \A o \in AllOps : (Kind = "list" => o.op \in {"add", "addt", "del", "repl", "free"} \cup ListTravs)
+                      /\ (Kind = "hlist" => o.op \in {"hadd", "hdel", "free"} \cup HlistTravs)
 
 \* ---- initial memory image: the list InitList built by the same primitives before the threads start; every other
 \* ---- node is zero-initialised static storage
@@ -93,8 +108,17 @@ RECURSIVE Walk(_, _, _)
 Walk(m, p, k) == IF p \notin Nodes \/ k = 0 THEN <<>> ELSE <<p>> \o Walk(m, m[NextOf(p)], k - 1)
 ReachSeq(m) == Walk(m, m[NextOf(LH)], Cardinality(Nodes) + 1)
 ReachSet(m) == {ReachSeq(m)[j] : j \in DOMAIN ReachSeq(m)}
-PresUpd(pr, ac, m) == [r \in Threads |-> IF ac[r] THEN pr[r] \cap ReachSet(m) ELSE pr[r]]
-EverUpd(ev, ac, m) == [r \in Threads |-> IF ac[r] THEN ev[r] \cup ReachSet(m) ELSE ev[r]]
+\* ghost tags carried by publication / unlink stores, applied to the member set when the store reaches memory
+NoG == <<"-", "-", "-">>
+Ins(n) == <<"ins", n, "-">>
+Rem(n) == <<"rem", n, "-">>
+Rep(o, n) == <<"rep", o, n>>
+Apply(mb, g) == IF g[1] = "ins" THEN mb \cup {g[2]} ELSE IF g[1] = "rem" THEN mb \ {g[2]}
+                ELSE IF g[1] = "rep" THEN (mb \ {g[2]}) \cup {g[3]} ELSE mb
+PresUpd(pr, ac, mb) == [r \in Threads |-> IF ac[r] THEN pr[r] \cap mb ELSE pr[r]]
+EverUpd(ev, ac, mb) == [r \in Threads |-> IF ac[r] THEN ev[r] \cup mb ELSE ev[r]]
+RECURSIVE Filter(_, _)
+Filter(sq, st) == IF sq = <<>> THEN <<>> ELSE (IF sq[1] \in st THEN <<sq[1]>> ELSE <<>>) \o Filter(Tail(sq), st)
 Range(s) == {s[j] : j \in DOMAIN s}
 InsertAfter(s, x, y) == SubSeq(s, 1, IdxOf(s, x)) \o <<y>> \o SubSeq(s, IdxOf(s, x) + 1, Len(s))
 RECURSIVE Join(_)
@@ -110,9 +134,10 @@ variables
   csn = [t \in Threads |-> 0],               \* number of sections the thread has begun (id of the current one)
   alive = [n \in Nodes |-> TRUE],            \* ghost: not yet freed
   ord = InitList,                            \* ghost: every node ever inserted, in list-position order
+  member = {InitList[j] : j \in DOMAIN InitList},   \* ghost: nodes logically in the list
   active = [t \in Threads |-> FALSE],        \* ghost: a traversal is between its first and its last load
-  pres = [t \in Threads |-> {}],             \* ghost: nodes in the list at every instant of t's current traversal
-  ever = [t \in Threads |-> {}],             \* ghost: nodes in the list at some instant of t's current traversal
+  pres = [t \in Threads |-> {}],             \* ghost: members at every instant of t's current traversal
+  ever = [t \in Threads |-> {}],             \* ghost: members at some instant of t's current traversal
   bad = {};                                  \* ghost: violated clauses
 
 define {
@@ -133,13 +158,14 @@ define {
 
 macro Ld(dst, loc)   { dst := Rd(self, loc); acc := Ev(self, "ld", loc, "-", "-", Rd(self, loc)); }
 \* plain store (compiler-generated mov)
-macro StP(loc, v)    { if (TSO /\ PlainBuf) { sb[self] := Append(sb[self], <<loc, v>>) }
-                       else { await Drained(self); mem[loc] := v;
-                              pres := PresUpd(pres, active, mem); ever := EverUpd(ever, active, mem) };
+macro StP(loc, v)    { if (TSO /\ PlainBuf) { sb[self] := Append(sb[self], <<loc, v, NoG>>) }
+                       else { await Drained(self); mem[loc] := v };
                        acc := Ev(self, "st", loc, v, "-", "-"); }
 \* hooked store: uatomic_store(..., CMM_RELEASE / CMM_RELAXED) -- a mov on x86, no fence
-macro StH(loc, v)    { if (TSO) { sb[self] := Append(sb[self], <<loc, v>>) }
-                       else { mem[loc] := v; pres := PresUpd(pres, active, mem); ever := EverUpd(ever, active, mem) };
+\* g: ghost tag (which node becomes / ceases to be a member when this store reaches memory)
+macro StH(loc, v, g) { if (TSO) { sb[self] := Append(sb[self], <<loc, v, g>>) }
+                       else { mem[loc] := v; member := Apply(member, g);
+                              pres := PresUpd(pres, active, member); ever := EverUpd(ever, active, member) };
                        acc := Ev(self, "st", loc, v, "-", "-"); }
 
 fair process (flusher \in Flushers) {
@@ -148,7 +174,8 @@ fl: while (TRUE) {
       with (e = Head(sb[FlOf[self]])) {
         mem[e[1]] := e[2];
         sb[FlOf[self]] := Tail(sb[FlOf[self]]);
-        pres := PresUpd(pres, active, mem); ever := EverUpd(ever, active, mem);
+        member := Apply(member, e[3]);
+        pres := PresUpd(pres, active, member); ever := EverUpd(ever, active, member);
         acc := IF Tracing THEN [k |-> acc.k + 1, t |-> FlOf[self], op |-> "flush", var |-> e[1], a |-> e[2], b |-> "-", r |-> "-"] ELSE acc;
       }
     }
@@ -175,7 +202,7 @@ a_ldf:    Ld(f, NextOf(LH));                                 \* head->next  (loa
 a_nn:     StP(NextOf(op.n), f);                                \* newp->next = head->next
 a_np:     StP(PrevOf(op.n), LH);                             \* newp->prev = head
 a_fp:     StP(PrevOf(f), op.n);                                \* head->next->prev = newp
-a_pub:    StH(NextOf(LH), op.n);                             \* rcu_assign_pointer(head->next, newp)
+a_pub:    StH(NextOf(LH), op.n, Ins(op.n));                           \* rcu_assign_pointer(head->next, newp)
           goto t_ret;
 
         \* ---------------- cds_list_add_tail_rcu(newp = op.n, head)
@@ -183,7 +210,7 @@ at_key:   StP(KeyOf(op.n), KeyVal(op.n));                      \* item->key = ..
 at_nn:    StP(NextOf(op.n), LH);                             \* newp->next = head
 at_ldl:   Ld(p, PrevOf(LH));                                 \* head->prev  (loaded once, reused below)
 at_np:    StP(PrevOf(op.n), p);                                \* newp->prev = head->prev
-at_pub:   StH(NextOf(p), op.n);                                \* rcu_assign_pointer(head->prev->next, newp)
+at_pub:   StH(NextOf(p), op.n, Ins(op.n));                             \* rcu_assign_pointer(head->prev->next, newp)
 at_hp:    StP(PrevOf(LH), op.n);                             \* head->prev = newp
           goto t_ret;
 
@@ -192,7 +219,7 @@ d_ldn:    Ld(x, NextOf(op.n));                                 \* elem->next
 d_ldp:    Ld(p, PrevOf(op.n));                                 \* elem->prev  (reused for &elem->prev->next)
 d_xp:     StP(PrevOf(x), p);                                   \* elem->next->prev = elem->prev
 d_ldn2:   Ld(x, NextOf(op.n));                                 \* elem->next  (value to store)
-d_pub:    StH(NextOf(p), x);                                   \* uatomic_store(&elem->prev->next, elem->next)
+d_pub:    StH(NextOf(p), x, Rem(op.n));                             \* uatomic_store(&elem->prev->next, elem->next)
           goto t_ret;
 
         \* ---------------- cds_list_replace_rcu(old = op.n, _new = op.m)
@@ -201,7 +228,7 @@ rp_ldn:   Ld(x, NextOf(op.n));                                 \* old->next
 rp_nn:    StP(NextOf(op.m), x);                                \* _new->next = old->next
 rp_ldp:   Ld(p, PrevOf(op.n));                                 \* old->prev
 rp_np:    StP(PrevOf(op.m), p);                                \* _new->prev = old->prev  (value reused as _new->prev)
-rp_pub:   StH(NextOf(p), op.m);                                \* rcu_assign_pointer(_new->prev->next, _new)
+rp_pub:   StH(NextOf(p), op.m, Rep(op.n, op.m));                            \* rcu_assign_pointer(_new->prev->next, _new)
 rp_ldn2:  Ld(x, NextOf(op.m));                                 \* _new->next
 rp_xp:    StP(PrevOf(x), op.m);                                \* _new->next->prev = _new
           goto t_ret;
@@ -213,17 +240,17 @@ h_nn:     StP(NextOf(op.n), f);                                \* newp->next = h
 h_np:     StP(PrevOf(op.n), LH);                             \* newp->prev = head  (cast to a node pointer)
           if (f = NULL) { goto h_pub };                        \* if (head->next)
 h_fp:     StP(PrevOf(f), op.n);                                \*         head->next->prev = newp
-h_pub:    StH(NextOf(LH), op.n);                             \* rcu_assign_pointer(head->next, newp)
+h_pub:    StH(NextOf(LH), op.n, Ins(op.n));                           \* rcu_assign_pointer(head->next, newp)
           goto t_ret;
 
         \* ---------------- cds_hlist_del_rcu(elem = op.n)
 hd_ldn:   Ld(x, NextOf(op.n));                                 \* if (elem->next)
-          if (x = NULL) { goto hd_ldn2 };
+          if (x = NULL) { goto hd_ldp2 };
 hd_ldp:   Ld(p, PrevOf(op.n));                                 \*         elem->prev
 hd_xp:    StP(PrevOf(x), p);                                   \*         elem->next->prev = elem->prev
+hd_ldp2:  Ld(p, PrevOf(op.n));                                 \* elem->prev  (address &elem->prev->next, evaluated first)
 hd_ldn2:  Ld(x, NextOf(op.n));                                 \* elem->next  (value to store)
-hd_ldp2:  Ld(p, PrevOf(op.n));                                 \* elem->prev
-hd_pub:   StH(NextOf(p), x);                                   \* uatomic_store(&elem->prev->next, elem->next)
+hd_pub:   StH(NextOf(p), x, Rem(op.n));                             \* uatomic_store(&elem->prev->next, elem->next)
           goto t_ret;
 
         \* ---------------- synchronize_rcu(); free(op.n)
@@ -239,10 +266,10 @@ g_end:    await Drained(self) /\ GpDone(snap);                 \* every section 
 r_lock:   incs[self] := TRUE; csn[self] := csn[self] + 1;      \* rcu_read_lock()
           acc := Ev(self, "rlock", "-", "-", "-", "-");
 r_first:  Ld(pos, NextOf(LH));                                 \* pos = rcu_dereference(head->next)
-          if (pos = End) { seen := <<>>; goto r_unlock }
+          if (pos = End) { seen := <<>>; bad := bad \cup EndBad(member, <<>>); goto r_unlock }
           else if (pos \notin Nodes) { seen := <<>>; bad := bad \cup {"traversal reached a wild pointer"}; goto r_unlock }
-          else { active[self] := TRUE; pres[self] := ReachSet(mem); ever[self] := ReachSet(mem);      \* ghosts: the traversal begins
-                 bad := bad \cup VisitBad(ReachSet(mem), <<>>, pos); seen := <<pos>> };
+          else { active[self] := TRUE; pres[self] := member; ever[self] := member;      \* ghosts: the traversal begins
+                 bad := bad \cup VisitBad(member, <<>>, pos); seen := <<pos>> };
 r_key:    Ld(key, KeyOf(pos));                                 \* pos->key  (payload access of the loop body)
           bad := bad \cup DeadBad(pos) \cup (IF key # KeyVal(pos) THEN {"payload not initialised"} ELSE {});
 r_next:   Ld(nx, NextOf(pos));                                 \* pos = rcu_dereference(pos->next)
@@ -260,7 +287,8 @@ t_ret:    i := i + 1;
 }
 } *)
 \* BEGIN TRANSLATION
-VARIABLES pc, mem, sb, acc, incs, csn, alive, ord, active, pres, ever, bad
+VARIABLES pc, mem, sb, acc, incs, csn, alive, ord, member, active, pres, ever, 
+          bad
 
 (* define statement *)
 LastIdx(t, loc) == LET S == {j \in DOMAIN sb[t] : sb[t][j][1] = loc} IN
@@ -279,8 +307,8 @@ DeadBad(n) == IF n \in Nodes /\ ~alive[n] THEN {"dereferenced a freed node"} ELS
 
 VARIABLES i, op, res, f, x, p, pos, nx, key, seen, snap
 
-vars == << pc, mem, sb, acc, incs, csn, alive, ord, active, pres, ever, bad, 
-           i, op, res, f, x, p, pos, nx, key, seen, snap >>
+vars == << pc, mem, sb, acc, incs, csn, alive, ord, member, active, pres, 
+           ever, bad, i, op, res, f, x, p, pos, nx, key, seen, snap >>
 
 ProcSet == (Flushers) \cup (Threads)
 
@@ -292,6 +320,7 @@ Init == (* Global variables *)
         /\ csn = [t \in Threads |-> 0]
         /\ alive = [n \in Nodes |-> TRUE]
         /\ ord = InitList
+        /\ member = {InitList[j] : j \in DOMAIN InitList}
         /\ active = [t \in Threads |-> FALSE]
         /\ pres = [t \in Threads |-> {}]
         /\ ever = [t \in Threads |-> {}]
@@ -316,8 +345,9 @@ fl(self) == /\ pc[self] = "fl"
             /\ LET e == Head(sb[FlOf[self]]) IN
                  /\ mem' = [mem EXCEPT ![e[1]] = e[2]]
                  /\ sb' = [sb EXCEPT ![FlOf[self]] = Tail(sb[FlOf[self]])]
-                 /\ pres' = PresUpd(pres, active, mem')
-                 /\ ever' = EverUpd(ever, active, mem')
+                 /\ member' = Apply(member, e[3])
+                 /\ pres' = PresUpd(pres, active, member')
+                 /\ ever' = EverUpd(ever, active, member')
                  /\ acc' = IF Tracing THEN [k |-> acc.k + 1, t |-> FlOf[self], op |-> "flush", var |-> e[1], a |-> e[2], b |-> "-", r |-> "-"] ELSE acc
             /\ pc' = [pc EXCEPT ![self] = "fl"]
             /\ UNCHANGED << incs, csn, alive, ord, active, bad, i, op, res, f, 
@@ -340,8 +370,9 @@ t_top(self) == /\ pc[self] = "t_top"
                           /\ pc' = [pc EXCEPT ![self] = "t_disp"]
                      ELSE /\ pc' = [pc EXCEPT ![self] = "Done"]
                           /\ UNCHANGED << ord, op, res >>
-               /\ UNCHANGED << mem, sb, acc, incs, csn, alive, active, pres, 
-                               ever, bad, i, f, x, p, pos, nx, key, seen, snap >>
+               /\ UNCHANGED << mem, sb, acc, incs, csn, alive, member, active, 
+                               pres, ever, bad, i, f, x, p, pos, nx, key, seen, 
+                               snap >>
 
 t_disp(self) == /\ pc[self] = "t_disp"
                 /\ IF op[self].op = "add"
@@ -359,81 +390,78 @@ t_disp(self) == /\ pc[self] = "t_disp"
                                                                              ELSE /\ IF op[self].op = "free"
                                                                                         THEN /\ pc' = [pc EXCEPT ![self] = "g_mb"]
                                                                                         ELSE /\ pc' = [pc EXCEPT ![self] = "r_lock"]
-                /\ UNCHANGED << mem, sb, acc, incs, csn, alive, ord, active, 
-                                pres, ever, bad, i, op, res, f, x, p, pos, nx, 
-                                key, seen, snap >>
+                /\ UNCHANGED << mem, sb, acc, incs, csn, alive, ord, member, 
+                                active, pres, ever, bad, i, op, res, f, x, p, 
+                                pos, nx, key, seen, snap >>
 
 a_key(self) == /\ pc[self] = "a_key"
                /\ IF TSO /\ PlainBuf
-                     THEN /\ sb' = [sb EXCEPT ![self] = Append(sb[self], <<(KeyOf(op[self].n)), (KeyVal(op[self].n))>>)]
-                          /\ UNCHANGED << mem, pres, ever >>
+                     THEN /\ sb' = [sb EXCEPT ![self] = Append(sb[self], <<(KeyOf(op[self].n)), (KeyVal(op[self].n)), NoG>>)]
+                          /\ mem' = mem
                      ELSE /\ Drained(self)
                           /\ mem' = [mem EXCEPT ![(KeyOf(op[self].n))] = KeyVal(op[self].n)]
-                          /\ pres' = PresUpd(pres, active, mem')
-                          /\ ever' = EverUpd(ever, active, mem')
                           /\ sb' = sb
                /\ acc' = Ev(self, "st", (KeyOf(op[self].n)), (KeyVal(op[self].n)), "-", "-")
                /\ pc' = [pc EXCEPT ![self] = "a_ldf"]
-               /\ UNCHANGED << incs, csn, alive, ord, active, bad, i, op, res, 
-                               f, x, p, pos, nx, key, seen, snap >>
+               /\ UNCHANGED << incs, csn, alive, ord, member, active, pres, 
+                               ever, bad, i, op, res, f, x, p, pos, nx, key, 
+                               seen, snap >>
 
 a_ldf(self) == /\ pc[self] = "a_ldf"
                /\ f' = [f EXCEPT ![self] = Rd(self, (NextOf(LH)))]
                /\ acc' = Ev(self, "ld", (NextOf(LH)), "-", "-", Rd(self, (NextOf(LH))))
                /\ pc' = [pc EXCEPT ![self] = "a_nn"]
-               /\ UNCHANGED << mem, sb, incs, csn, alive, ord, active, pres, 
-                               ever, bad, i, op, res, x, p, pos, nx, key, seen, 
-                               snap >>
+               /\ UNCHANGED << mem, sb, incs, csn, alive, ord, member, active, 
+                               pres, ever, bad, i, op, res, x, p, pos, nx, key, 
+                               seen, snap >>
 
 a_nn(self) == /\ pc[self] = "a_nn"
               /\ IF TSO /\ PlainBuf
-                    THEN /\ sb' = [sb EXCEPT ![self] = Append(sb[self], <<(NextOf(op[self].n)), f[self]>>)]
-                         /\ UNCHANGED << mem, pres, ever >>
+                    THEN /\ sb' = [sb EXCEPT ![self] = Append(sb[self], <<(NextOf(op[self].n)), f[self], NoG>>)]
+                         /\ mem' = mem
                     ELSE /\ Drained(self)
                          /\ mem' = [mem EXCEPT ![(NextOf(op[self].n))] = f[self]]
-                         /\ pres' = PresUpd(pres, active, mem')
-                         /\ ever' = EverUpd(ever, active, mem')
                          /\ sb' = sb
               /\ acc' = Ev(self, "st", (NextOf(op[self].n)), f[self], "-", "-")
               /\ pc' = [pc EXCEPT ![self] = "a_np"]
-              /\ UNCHANGED << incs, csn, alive, ord, active, bad, i, op, res, 
-                              f, x, p, pos, nx, key, seen, snap >>
+              /\ UNCHANGED << incs, csn, alive, ord, member, active, pres, 
+                              ever, bad, i, op, res, f, x, p, pos, nx, key, 
+                              seen, snap >>
 
 a_np(self) == /\ pc[self] = "a_np"
               /\ IF TSO /\ PlainBuf
-                    THEN /\ sb' = [sb EXCEPT ![self] = Append(sb[self], <<(PrevOf(op[self].n)), LH>>)]
-                         /\ UNCHANGED << mem, pres, ever >>
+                    THEN /\ sb' = [sb EXCEPT ![self] = Append(sb[self], <<(PrevOf(op[self].n)), LH, NoG>>)]
+                         /\ mem' = mem
                     ELSE /\ Drained(self)
                          /\ mem' = [mem EXCEPT ![(PrevOf(op[self].n))] = LH]
-                         /\ pres' = PresUpd(pres, active, mem')
-                         /\ ever' = EverUpd(ever, active, mem')
                          /\ sb' = sb
               /\ acc' = Ev(self, "st", (PrevOf(op[self].n)), LH, "-", "-")
               /\ pc' = [pc EXCEPT ![self] = "a_fp"]
-              /\ UNCHANGED << incs, csn, alive, ord, active, bad, i, op, res, 
-                              f, x, p, pos, nx, key, seen, snap >>
+              /\ UNCHANGED << incs, csn, alive, ord, member, active, pres, 
+                              ever, bad, i, op, res, f, x, p, pos, nx, key, 
+                              seen, snap >>
 
 a_fp(self) == /\ pc[self] = "a_fp"
               /\ IF TSO /\ PlainBuf
-                    THEN /\ sb' = [sb EXCEPT ![self] = Append(sb[self], <<(PrevOf(f[self])), (op[self].n)>>)]
-                         /\ UNCHANGED << mem, pres, ever >>
+                    THEN /\ sb' = [sb EXCEPT ![self] = Append(sb[self], <<(PrevOf(f[self])), (op[self].n), NoG>>)]
+                         /\ mem' = mem
                     ELSE /\ Drained(self)
                          /\ mem' = [mem EXCEPT ![(PrevOf(f[self]))] = op[self].n]
-                         /\ pres' = PresUpd(pres, active, mem')
-                         /\ ever' = EverUpd(ever, active, mem')
                          /\ sb' = sb
               /\ acc' = Ev(self, "st", (PrevOf(f[self])), (op[self].n), "-", "-")
               /\ pc' = [pc EXCEPT ![self] = "a_pub"]
-              /\ UNCHANGED << incs, csn, alive, ord, active, bad, i, op, res, 
-                              f, x, p, pos, nx, key, seen, snap >>
+              /\ UNCHANGED << incs, csn, alive, ord, member, active, pres, 
+                              ever, bad, i, op, res, f, x, p, pos, nx, key, 
+                              seen, snap >>
 
 a_pub(self) == /\ pc[self] = "a_pub"
                /\ IF TSO
-                     THEN /\ sb' = [sb EXCEPT ![self] = Append(sb[self], <<(NextOf(LH)), (op[self].n)>>)]
-                          /\ UNCHANGED << mem, pres, ever >>
+                     THEN /\ sb' = [sb EXCEPT ![self] = Append(sb[self], <<(NextOf(LH)), (op[self].n), (Ins(op[self].n))>>)]
+                          /\ UNCHANGED << mem, member, pres, ever >>
                      ELSE /\ mem' = [mem EXCEPT ![(NextOf(LH))] = op[self].n]
-                          /\ pres' = PresUpd(pres, active, mem')
-                          /\ ever' = EverUpd(ever, active, mem')
+                          /\ member' = Apply(member, (Ins(op[self].n)))
+                          /\ pres' = PresUpd(pres, active, member')
+                          /\ ever' = EverUpd(ever, active, member')
                           /\ sb' = sb
                /\ acc' = Ev(self, "st", (NextOf(LH)), (op[self].n), "-", "-")
                /\ pc' = [pc EXCEPT ![self] = "t_ret"]
@@ -442,61 +470,59 @@ a_pub(self) == /\ pc[self] = "a_pub"
 
 at_key(self) == /\ pc[self] = "at_key"
                 /\ IF TSO /\ PlainBuf
-                      THEN /\ sb' = [sb EXCEPT ![self] = Append(sb[self], <<(KeyOf(op[self].n)), (KeyVal(op[self].n))>>)]
-                           /\ UNCHANGED << mem, pres, ever >>
+                      THEN /\ sb' = [sb EXCEPT ![self] = Append(sb[self], <<(KeyOf(op[self].n)), (KeyVal(op[self].n)), NoG>>)]
+                           /\ mem' = mem
                       ELSE /\ Drained(self)
                            /\ mem' = [mem EXCEPT ![(KeyOf(op[self].n))] = KeyVal(op[self].n)]
-                           /\ pres' = PresUpd(pres, active, mem')
-                           /\ ever' = EverUpd(ever, active, mem')
                            /\ sb' = sb
                 /\ acc' = Ev(self, "st", (KeyOf(op[self].n)), (KeyVal(op[self].n)), "-", "-")
                 /\ pc' = [pc EXCEPT ![self] = "at_nn"]
-                /\ UNCHANGED << incs, csn, alive, ord, active, bad, i, op, res, 
-                                f, x, p, pos, nx, key, seen, snap >>
+                /\ UNCHANGED << incs, csn, alive, ord, member, active, pres, 
+                                ever, bad, i, op, res, f, x, p, pos, nx, key, 
+                                seen, snap >>
 
 at_nn(self) == /\ pc[self] = "at_nn"
                /\ IF TSO /\ PlainBuf
-                     THEN /\ sb' = [sb EXCEPT ![self] = Append(sb[self], <<(NextOf(op[self].n)), LH>>)]
-                          /\ UNCHANGED << mem, pres, ever >>
+                     THEN /\ sb' = [sb EXCEPT ![self] = Append(sb[self], <<(NextOf(op[self].n)), LH, NoG>>)]
+                          /\ mem' = mem
                      ELSE /\ Drained(self)
                           /\ mem' = [mem EXCEPT ![(NextOf(op[self].n))] = LH]
-                          /\ pres' = PresUpd(pres, active, mem')
-                          /\ ever' = EverUpd(ever, active, mem')
                           /\ sb' = sb
                /\ acc' = Ev(self, "st", (NextOf(op[self].n)), LH, "-", "-")
                /\ pc' = [pc EXCEPT ![self] = "at_ldl"]
-               /\ UNCHANGED << incs, csn, alive, ord, active, bad, i, op, res, 
-                               f, x, p, pos, nx, key, seen, snap >>
+               /\ UNCHANGED << incs, csn, alive, ord, member, active, pres, 
+                               ever, bad, i, op, res, f, x, p, pos, nx, key, 
+                               seen, snap >>
 
 at_ldl(self) == /\ pc[self] = "at_ldl"
                 /\ p' = [p EXCEPT ![self] = Rd(self, (PrevOf(LH)))]
                 /\ acc' = Ev(self, "ld", (PrevOf(LH)), "-", "-", Rd(self, (PrevOf(LH))))
                 /\ pc' = [pc EXCEPT ![self] = "at_np"]
-                /\ UNCHANGED << mem, sb, incs, csn, alive, ord, active, pres, 
-                                ever, bad, i, op, res, f, x, pos, nx, key, 
-                                seen, snap >>
+                /\ UNCHANGED << mem, sb, incs, csn, alive, ord, member, active, 
+                                pres, ever, bad, i, op, res, f, x, pos, nx, 
+                                key, seen, snap >>
 
 at_np(self) == /\ pc[self] = "at_np"
                /\ IF TSO /\ PlainBuf
-                     THEN /\ sb' = [sb EXCEPT ![self] = Append(sb[self], <<(PrevOf(op[self].n)), p[self]>>)]
-                          /\ UNCHANGED << mem, pres, ever >>
+                     THEN /\ sb' = [sb EXCEPT ![self] = Append(sb[self], <<(PrevOf(op[self].n)), p[self], NoG>>)]
+                          /\ mem' = mem
                      ELSE /\ Drained(self)
                           /\ mem' = [mem EXCEPT ![(PrevOf(op[self].n))] = p[self]]
-                          /\ pres' = PresUpd(pres, active, mem')
-                          /\ ever' = EverUpd(ever, active, mem')
                           /\ sb' = sb
                /\ acc' = Ev(self, "st", (PrevOf(op[self].n)), p[self], "-", "-")
                /\ pc' = [pc EXCEPT ![self] = "at_pub"]
-               /\ UNCHANGED << incs, csn, alive, ord, active, bad, i, op, res, 
-                               f, x, p, pos, nx, key, seen, snap >>
+               /\ UNCHANGED << incs, csn, alive, ord, member, active, pres, 
+                               ever, bad, i, op, res, f, x, p, pos, nx, key, 
+                               seen, snap >>
 
 at_pub(self) == /\ pc[self] = "at_pub"
                 /\ IF TSO
-                      THEN /\ sb' = [sb EXCEPT ![self] = Append(sb[self], <<(NextOf(p[self])), (op[self].n)>>)]
-                           /\ UNCHANGED << mem, pres, ever >>
+                      THEN /\ sb' = [sb EXCEPT ![self] = Append(sb[self], <<(NextOf(p[self])), (op[self].n), (Ins(op[self].n))>>)]
+                           /\ UNCHANGED << mem, member, pres, ever >>
                       ELSE /\ mem' = [mem EXCEPT ![(NextOf(p[self]))] = op[self].n]
-                           /\ pres' = PresUpd(pres, active, mem')
-                           /\ ever' = EverUpd(ever, active, mem')
+                           /\ member' = Apply(member, (Ins(op[self].n)))
+                           /\ pres' = PresUpd(pres, active, member')
+                           /\ ever' = EverUpd(ever, active, member')
                            /\ sb' = sb
                 /\ acc' = Ev(self, "st", (NextOf(p[self])), (op[self].n), "-", "-")
                 /\ pc' = [pc EXCEPT ![self] = "at_hp"]
@@ -505,63 +531,62 @@ at_pub(self) == /\ pc[self] = "at_pub"
 
 at_hp(self) == /\ pc[self] = "at_hp"
                /\ IF TSO /\ PlainBuf
-                     THEN /\ sb' = [sb EXCEPT ![self] = Append(sb[self], <<(PrevOf(LH)), (op[self].n)>>)]
-                          /\ UNCHANGED << mem, pres, ever >>
+                     THEN /\ sb' = [sb EXCEPT ![self] = Append(sb[self], <<(PrevOf(LH)), (op[self].n), NoG>>)]
+                          /\ mem' = mem
                      ELSE /\ Drained(self)
                           /\ mem' = [mem EXCEPT ![(PrevOf(LH))] = op[self].n]
-                          /\ pres' = PresUpd(pres, active, mem')
-                          /\ ever' = EverUpd(ever, active, mem')
                           /\ sb' = sb
                /\ acc' = Ev(self, "st", (PrevOf(LH)), (op[self].n), "-", "-")
                /\ pc' = [pc EXCEPT ![self] = "t_ret"]
-               /\ UNCHANGED << incs, csn, alive, ord, active, bad, i, op, res, 
-                               f, x, p, pos, nx, key, seen, snap >>
+               /\ UNCHANGED << incs, csn, alive, ord, member, active, pres, 
+                               ever, bad, i, op, res, f, x, p, pos, nx, key, 
+                               seen, snap >>
 
 d_ldn(self) == /\ pc[self] = "d_ldn"
                /\ x' = [x EXCEPT ![self] = Rd(self, (NextOf(op[self].n)))]
                /\ acc' = Ev(self, "ld", (NextOf(op[self].n)), "-", "-", Rd(self, (NextOf(op[self].n))))
                /\ pc' = [pc EXCEPT ![self] = "d_ldp"]
-               /\ UNCHANGED << mem, sb, incs, csn, alive, ord, active, pres, 
-                               ever, bad, i, op, res, f, p, pos, nx, key, seen, 
-                               snap >>
+               /\ UNCHANGED << mem, sb, incs, csn, alive, ord, member, active, 
+                               pres, ever, bad, i, op, res, f, p, pos, nx, key, 
+                               seen, snap >>
 
 d_ldp(self) == /\ pc[self] = "d_ldp"
                /\ p' = [p EXCEPT ![self] = Rd(self, (PrevOf(op[self].n)))]
                /\ acc' = Ev(self, "ld", (PrevOf(op[self].n)), "-", "-", Rd(self, (PrevOf(op[self].n))))
                /\ pc' = [pc EXCEPT ![self] = "d_xp"]
-               /\ UNCHANGED << mem, sb, incs, csn, alive, ord, active, pres, 
-                               ever, bad, i, op, res, f, x, pos, nx, key, seen, 
-                               snap >>
+               /\ UNCHANGED << mem, sb, incs, csn, alive, ord, member, active, 
+                               pres, ever, bad, i, op, res, f, x, pos, nx, key, 
+                               seen, snap >>
 
 d_xp(self) == /\ pc[self] = "d_xp"
               /\ IF TSO /\ PlainBuf
-                    THEN /\ sb' = [sb EXCEPT ![self] = Append(sb[self], <<(PrevOf(x[self])), p[self]>>)]
-                         /\ UNCHANGED << mem, pres, ever >>
+                    THEN /\ sb' = [sb EXCEPT ![self] = Append(sb[self], <<(PrevOf(x[self])), p[self], NoG>>)]
+                         /\ mem' = mem
                     ELSE /\ Drained(self)
                          /\ mem' = [mem EXCEPT ![(PrevOf(x[self]))] = p[self]]
-                         /\ pres' = PresUpd(pres, active, mem')
-                         /\ ever' = EverUpd(ever, active, mem')
                          /\ sb' = sb
               /\ acc' = Ev(self, "st", (PrevOf(x[self])), p[self], "-", "-")
               /\ pc' = [pc EXCEPT ![self] = "d_ldn2"]
-              /\ UNCHANGED << incs, csn, alive, ord, active, bad, i, op, res, 
-                              f, x, p, pos, nx, key, seen, snap >>
+              /\ UNCHANGED << incs, csn, alive, ord, member, active, pres, 
+                              ever, bad, i, op, res, f, x, p, pos, nx, key, 
+                              seen, snap >>
 
 d_ldn2(self) == /\ pc[self] = "d_ldn2"
                 /\ x' = [x EXCEPT ![self] = Rd(self, (NextOf(op[self].n)))]
                 /\ acc' = Ev(self, "ld", (NextOf(op[self].n)), "-", "-", Rd(self, (NextOf(op[self].n))))
                 /\ pc' = [pc EXCEPT ![self] = "d_pub"]
-                /\ UNCHANGED << mem, sb, incs, csn, alive, ord, active, pres, 
-                                ever, bad, i, op, res, f, p, pos, nx, key, 
-                                seen, snap >>
+                /\ UNCHANGED << mem, sb, incs, csn, alive, ord, member, active, 
+                                pres, ever, bad, i, op, res, f, p, pos, nx, 
+                                key, seen, snap >>
 
 d_pub(self) == /\ pc[self] = "d_pub"
                /\ IF TSO
-                     THEN /\ sb' = [sb EXCEPT ![self] = Append(sb[self], <<(NextOf(p[self])), x[self]>>)]
-                          /\ UNCHANGED << mem, pres, ever >>
+                     THEN /\ sb' = [sb EXCEPT ![self] = Append(sb[self], <<(NextOf(p[self])), x[self], (Rem(op[self].n))>>)]
+                          /\ UNCHANGED << mem, member, pres, ever >>
                      ELSE /\ mem' = [mem EXCEPT ![(NextOf(p[self]))] = x[self]]
-                          /\ pres' = PresUpd(pres, active, mem')
-                          /\ ever' = EverUpd(ever, active, mem')
+                          /\ member' = Apply(member, (Rem(op[self].n)))
+                          /\ pres' = PresUpd(pres, active, member')
+                          /\ ever' = EverUpd(ever, active, member')
                           /\ sb' = sb
                /\ acc' = Ev(self, "st", (NextOf(p[self])), x[self], "-", "-")
                /\ pc' = [pc EXCEPT ![self] = "t_ret"]
@@ -570,69 +595,67 @@ d_pub(self) == /\ pc[self] = "d_pub"
 
 rp_key(self) == /\ pc[self] = "rp_key"
                 /\ IF TSO /\ PlainBuf
-                      THEN /\ sb' = [sb EXCEPT ![self] = Append(sb[self], <<(KeyOf(op[self].m)), (KeyVal(op[self].m))>>)]
-                           /\ UNCHANGED << mem, pres, ever >>
+                      THEN /\ sb' = [sb EXCEPT ![self] = Append(sb[self], <<(KeyOf(op[self].m)), (KeyVal(op[self].m)), NoG>>)]
+                           /\ mem' = mem
                       ELSE /\ Drained(self)
                            /\ mem' = [mem EXCEPT ![(KeyOf(op[self].m))] = KeyVal(op[self].m)]
-                           /\ pres' = PresUpd(pres, active, mem')
-                           /\ ever' = EverUpd(ever, active, mem')
                            /\ sb' = sb
                 /\ acc' = Ev(self, "st", (KeyOf(op[self].m)), (KeyVal(op[self].m)), "-", "-")
                 /\ pc' = [pc EXCEPT ![self] = "rp_ldn"]
-                /\ UNCHANGED << incs, csn, alive, ord, active, bad, i, op, res, 
-                                f, x, p, pos, nx, key, seen, snap >>
+                /\ UNCHANGED << incs, csn, alive, ord, member, active, pres, 
+                                ever, bad, i, op, res, f, x, p, pos, nx, key, 
+                                seen, snap >>
 
 rp_ldn(self) == /\ pc[self] = "rp_ldn"
                 /\ x' = [x EXCEPT ![self] = Rd(self, (NextOf(op[self].n)))]
                 /\ acc' = Ev(self, "ld", (NextOf(op[self].n)), "-", "-", Rd(self, (NextOf(op[self].n))))
                 /\ pc' = [pc EXCEPT ![self] = "rp_nn"]
-                /\ UNCHANGED << mem, sb, incs, csn, alive, ord, active, pres, 
-                                ever, bad, i, op, res, f, p, pos, nx, key, 
-                                seen, snap >>
+                /\ UNCHANGED << mem, sb, incs, csn, alive, ord, member, active, 
+                                pres, ever, bad, i, op, res, f, p, pos, nx, 
+                                key, seen, snap >>
 
 rp_nn(self) == /\ pc[self] = "rp_nn"
                /\ IF TSO /\ PlainBuf
-                     THEN /\ sb' = [sb EXCEPT ![self] = Append(sb[self], <<(NextOf(op[self].m)), x[self]>>)]
-                          /\ UNCHANGED << mem, pres, ever >>
+                     THEN /\ sb' = [sb EXCEPT ![self] = Append(sb[self], <<(NextOf(op[self].m)), x[self], NoG>>)]
+                          /\ mem' = mem
                      ELSE /\ Drained(self)
                           /\ mem' = [mem EXCEPT ![(NextOf(op[self].m))] = x[self]]
-                          /\ pres' = PresUpd(pres, active, mem')
-                          /\ ever' = EverUpd(ever, active, mem')
                           /\ sb' = sb
                /\ acc' = Ev(self, "st", (NextOf(op[self].m)), x[self], "-", "-")
                /\ pc' = [pc EXCEPT ![self] = "rp_ldp"]
-               /\ UNCHANGED << incs, csn, alive, ord, active, bad, i, op, res, 
-                               f, x, p, pos, nx, key, seen, snap >>
+               /\ UNCHANGED << incs, csn, alive, ord, member, active, pres, 
+                               ever, bad, i, op, res, f, x, p, pos, nx, key, 
+                               seen, snap >>
 
 rp_ldp(self) == /\ pc[self] = "rp_ldp"
                 /\ p' = [p EXCEPT ![self] = Rd(self, (PrevOf(op[self].n)))]
                 /\ acc' = Ev(self, "ld", (PrevOf(op[self].n)), "-", "-", Rd(self, (PrevOf(op[self].n))))
                 /\ pc' = [pc EXCEPT ![self] = "rp_np"]
-                /\ UNCHANGED << mem, sb, incs, csn, alive, ord, active, pres, 
-                                ever, bad, i, op, res, f, x, pos, nx, key, 
-                                seen, snap >>
+                /\ UNCHANGED << mem, sb, incs, csn, alive, ord, member, active, 
+                                pres, ever, bad, i, op, res, f, x, pos, nx, 
+                                key, seen, snap >>
 
 rp_np(self) == /\ pc[self] = "rp_np"
                /\ IF TSO /\ PlainBuf
-                     THEN /\ sb' = [sb EXCEPT ![self] = Append(sb[self], <<(PrevOf(op[self].m)), p[self]>>)]
-                          /\ UNCHANGED << mem, pres, ever >>
+                     THEN /\ sb' = [sb EXCEPT ![self] = Append(sb[self], <<(PrevOf(op[self].m)), p[self], NoG>>)]
+                          /\ mem' = mem
                      ELSE /\ Drained(self)
                           /\ mem' = [mem EXCEPT ![(PrevOf(op[self].m))] = p[self]]
-                          /\ pres' = PresUpd(pres, active, mem')
-                          /\ ever' = EverUpd(ever, active, mem')
                           /\ sb' = sb
                /\ acc' = Ev(self, "st", (PrevOf(op[self].m)), p[self], "-", "-")
                /\ pc' = [pc EXCEPT ![self] = "rp_pub"]
-               /\ UNCHANGED << incs, csn, alive, ord, active, bad, i, op, res, 
-                               f, x, p, pos, nx, key, seen, snap >>
+               /\ UNCHANGED << incs, csn, alive, ord, member, active, pres, 
+                               ever, bad, i, op, res, f, x, p, pos, nx, key, 
+                               seen, snap >>
 
 rp_pub(self) == /\ pc[self] = "rp_pub"
                 /\ IF TSO
-                      THEN /\ sb' = [sb EXCEPT ![self] = Append(sb[self], <<(NextOf(p[self])), (op[self].m)>>)]
-                           /\ UNCHANGED << mem, pres, ever >>
+                      THEN /\ sb' = [sb EXCEPT ![self] = Append(sb[self], <<(NextOf(p[self])), (op[self].m), (Rep(op[self].n, op[self].m))>>)]
+                           /\ UNCHANGED << mem, member, pres, ever >>
                       ELSE /\ mem' = [mem EXCEPT ![(NextOf(p[self]))] = op[self].m]
-                           /\ pres' = PresUpd(pres, active, mem')
-                           /\ ever' = EverUpd(ever, active, mem')
+                           /\ member' = Apply(member, (Rep(op[self].n, op[self].m)))
+                           /\ pres' = PresUpd(pres, active, member')
+                           /\ ever' = EverUpd(ever, active, member')
                            /\ sb' = sb
                 /\ acc' = Ev(self, "st", (NextOf(p[self])), (op[self].m), "-", "-")
                 /\ pc' = [pc EXCEPT ![self] = "rp_ldn2"]
@@ -643,97 +666,93 @@ rp_ldn2(self) == /\ pc[self] = "rp_ldn2"
                  /\ x' = [x EXCEPT ![self] = Rd(self, (NextOf(op[self].m)))]
                  /\ acc' = Ev(self, "ld", (NextOf(op[self].m)), "-", "-", Rd(self, (NextOf(op[self].m))))
                  /\ pc' = [pc EXCEPT ![self] = "rp_xp"]
-                 /\ UNCHANGED << mem, sb, incs, csn, alive, ord, active, pres, 
-                                 ever, bad, i, op, res, f, p, pos, nx, key, 
-                                 seen, snap >>
+                 /\ UNCHANGED << mem, sb, incs, csn, alive, ord, member, 
+                                 active, pres, ever, bad, i, op, res, f, p, 
+                                 pos, nx, key, seen, snap >>
 
 rp_xp(self) == /\ pc[self] = "rp_xp"
                /\ IF TSO /\ PlainBuf
-                     THEN /\ sb' = [sb EXCEPT ![self] = Append(sb[self], <<(PrevOf(x[self])), (op[self].m)>>)]
-                          /\ UNCHANGED << mem, pres, ever >>
+                     THEN /\ sb' = [sb EXCEPT ![self] = Append(sb[self], <<(PrevOf(x[self])), (op[self].m), NoG>>)]
+                          /\ mem' = mem
                      ELSE /\ Drained(self)
                           /\ mem' = [mem EXCEPT ![(PrevOf(x[self]))] = op[self].m]
-                          /\ pres' = PresUpd(pres, active, mem')
-                          /\ ever' = EverUpd(ever, active, mem')
                           /\ sb' = sb
                /\ acc' = Ev(self, "st", (PrevOf(x[self])), (op[self].m), "-", "-")
                /\ pc' = [pc EXCEPT ![self] = "t_ret"]
-               /\ UNCHANGED << incs, csn, alive, ord, active, bad, i, op, res, 
-                               f, x, p, pos, nx, key, seen, snap >>
+               /\ UNCHANGED << incs, csn, alive, ord, member, active, pres, 
+                               ever, bad, i, op, res, f, x, p, pos, nx, key, 
+                               seen, snap >>
 
 h_key(self) == /\ pc[self] = "h_key"
                /\ IF TSO /\ PlainBuf
-                     THEN /\ sb' = [sb EXCEPT ![self] = Append(sb[self], <<(KeyOf(op[self].n)), (KeyVal(op[self].n))>>)]
-                          /\ UNCHANGED << mem, pres, ever >>
+                     THEN /\ sb' = [sb EXCEPT ![self] = Append(sb[self], <<(KeyOf(op[self].n)), (KeyVal(op[self].n)), NoG>>)]
+                          /\ mem' = mem
                      ELSE /\ Drained(self)
                           /\ mem' = [mem EXCEPT ![(KeyOf(op[self].n))] = KeyVal(op[self].n)]
-                          /\ pres' = PresUpd(pres, active, mem')
-                          /\ ever' = EverUpd(ever, active, mem')
                           /\ sb' = sb
                /\ acc' = Ev(self, "st", (KeyOf(op[self].n)), (KeyVal(op[self].n)), "-", "-")
                /\ pc' = [pc EXCEPT ![self] = "h_ldf"]
-               /\ UNCHANGED << incs, csn, alive, ord, active, bad, i, op, res, 
-                               f, x, p, pos, nx, key, seen, snap >>
+               /\ UNCHANGED << incs, csn, alive, ord, member, active, pres, 
+                               ever, bad, i, op, res, f, x, p, pos, nx, key, 
+                               seen, snap >>
 
 h_ldf(self) == /\ pc[self] = "h_ldf"
                /\ f' = [f EXCEPT ![self] = Rd(self, (NextOf(LH)))]
                /\ acc' = Ev(self, "ld", (NextOf(LH)), "-", "-", Rd(self, (NextOf(LH))))
                /\ pc' = [pc EXCEPT ![self] = "h_nn"]
-               /\ UNCHANGED << mem, sb, incs, csn, alive, ord, active, pres, 
-                               ever, bad, i, op, res, x, p, pos, nx, key, seen, 
-                               snap >>
+               /\ UNCHANGED << mem, sb, incs, csn, alive, ord, member, active, 
+                               pres, ever, bad, i, op, res, x, p, pos, nx, key, 
+                               seen, snap >>
 
 h_nn(self) == /\ pc[self] = "h_nn"
               /\ IF TSO /\ PlainBuf
-                    THEN /\ sb' = [sb EXCEPT ![self] = Append(sb[self], <<(NextOf(op[self].n)), f[self]>>)]
-                         /\ UNCHANGED << mem, pres, ever >>
+                    THEN /\ sb' = [sb EXCEPT ![self] = Append(sb[self], <<(NextOf(op[self].n)), f[self], NoG>>)]
+                         /\ mem' = mem
                     ELSE /\ Drained(self)
                          /\ mem' = [mem EXCEPT ![(NextOf(op[self].n))] = f[self]]
-                         /\ pres' = PresUpd(pres, active, mem')
-                         /\ ever' = EverUpd(ever, active, mem')
                          /\ sb' = sb
               /\ acc' = Ev(self, "st", (NextOf(op[self].n)), f[self], "-", "-")
               /\ pc' = [pc EXCEPT ![self] = "h_np"]
-              /\ UNCHANGED << incs, csn, alive, ord, active, bad, i, op, res, 
-                              f, x, p, pos, nx, key, seen, snap >>
+              /\ UNCHANGED << incs, csn, alive, ord, member, active, pres, 
+                              ever, bad, i, op, res, f, x, p, pos, nx, key, 
+                              seen, snap >>
 
 h_np(self) == /\ pc[self] = "h_np"
               /\ IF TSO /\ PlainBuf
-                    THEN /\ sb' = [sb EXCEPT ![self] = Append(sb[self], <<(PrevOf(op[self].n)), LH>>)]
-                         /\ UNCHANGED << mem, pres, ever >>
+                    THEN /\ sb' = [sb EXCEPT ![self] = Append(sb[self], <<(PrevOf(op[self].n)), LH, NoG>>)]
+                         /\ mem' = mem
                     ELSE /\ Drained(self)
                          /\ mem' = [mem EXCEPT ![(PrevOf(op[self].n))] = LH]
-                         /\ pres' = PresUpd(pres, active, mem')
-                         /\ ever' = EverUpd(ever, active, mem')
                          /\ sb' = sb
               /\ acc' = Ev(self, "st", (PrevOf(op[self].n)), LH, "-", "-")
               /\ IF f[self] = NULL
                     THEN /\ pc' = [pc EXCEPT ![self] = "h_pub"]
                     ELSE /\ pc' = [pc EXCEPT ![self] = "h_fp"]
-              /\ UNCHANGED << incs, csn, alive, ord, active, bad, i, op, res, 
-                              f, x, p, pos, nx, key, seen, snap >>
+              /\ UNCHANGED << incs, csn, alive, ord, member, active, pres, 
+                              ever, bad, i, op, res, f, x, p, pos, nx, key, 
+                              seen, snap >>
 
 h_fp(self) == /\ pc[self] = "h_fp"
               /\ IF TSO /\ PlainBuf
-                    THEN /\ sb' = [sb EXCEPT ![self] = Append(sb[self], <<(PrevOf(f[self])), (op[self].n)>>)]
-                         /\ UNCHANGED << mem, pres, ever >>
+                    THEN /\ sb' = [sb EXCEPT ![self] = Append(sb[self], <<(PrevOf(f[self])), (op[self].n), NoG>>)]
+                         /\ mem' = mem
                     ELSE /\ Drained(self)
                          /\ mem' = [mem EXCEPT ![(PrevOf(f[self]))] = op[self].n]
-                         /\ pres' = PresUpd(pres, active, mem')
-                         /\ ever' = EverUpd(ever, active, mem')
                          /\ sb' = sb
               /\ acc' = Ev(self, "st", (PrevOf(f[self])), (op[self].n), "-", "-")
               /\ pc' = [pc EXCEPT ![self] = "h_pub"]
-              /\ UNCHANGED << incs, csn, alive, ord, active, bad, i, op, res, 
-                              f, x, p, pos, nx, key, seen, snap >>
+              /\ UNCHANGED << incs, csn, alive, ord, member, active, pres, 
+                              ever, bad, i, op, res, f, x, p, pos, nx, key, 
+                              seen, snap >>
 
 h_pub(self) == /\ pc[self] = "h_pub"
                /\ IF TSO
-                     THEN /\ sb' = [sb EXCEPT ![self] = Append(sb[self], <<(NextOf(LH)), (op[self].n)>>)]
-                          /\ UNCHANGED << mem, pres, ever >>
+                     THEN /\ sb' = [sb EXCEPT ![self] = Append(sb[self], <<(NextOf(LH)), (op[self].n), (Ins(op[self].n))>>)]
+                          /\ UNCHANGED << mem, member, pres, ever >>
                      ELSE /\ mem' = [mem EXCEPT ![(NextOf(LH))] = op[self].n]
-                          /\ pres' = PresUpd(pres, active, mem')
-                          /\ ever' = EverUpd(ever, active, mem')
+                          /\ member' = Apply(member, (Ins(op[self].n)))
+                          /\ pres' = PresUpd(pres, active, member')
+                          /\ ever' = EverUpd(ever, active, member')
                           /\ sb' = sb
                /\ acc' = Ev(self, "st", (NextOf(LH)), (op[self].n), "-", "-")
                /\ pc' = [pc EXCEPT ![self] = "t_ret"]
@@ -744,57 +763,57 @@ hd_ldn(self) == /\ pc[self] = "hd_ldn"
                 /\ x' = [x EXCEPT ![self] = Rd(self, (NextOf(op[self].n)))]
                 /\ acc' = Ev(self, "ld", (NextOf(op[self].n)), "-", "-", Rd(self, (NextOf(op[self].n))))
                 /\ IF x'[self] = NULL
-                      THEN /\ pc' = [pc EXCEPT ![self] = "hd_ldn2"]
+                      THEN /\ pc' = [pc EXCEPT ![self] = "hd_ldp2"]
                       ELSE /\ pc' = [pc EXCEPT ![self] = "hd_ldp"]
-                /\ UNCHANGED << mem, sb, incs, csn, alive, ord, active, pres, 
-                                ever, bad, i, op, res, f, p, pos, nx, key, 
-                                seen, snap >>
+                /\ UNCHANGED << mem, sb, incs, csn, alive, ord, member, active, 
+                                pres, ever, bad, i, op, res, f, p, pos, nx, 
+                                key, seen, snap >>
 
 hd_ldp(self) == /\ pc[self] = "hd_ldp"
                 /\ p' = [p EXCEPT ![self] = Rd(self, (PrevOf(op[self].n)))]
                 /\ acc' = Ev(self, "ld", (PrevOf(op[self].n)), "-", "-", Rd(self, (PrevOf(op[self].n))))
                 /\ pc' = [pc EXCEPT ![self] = "hd_xp"]
-                /\ UNCHANGED << mem, sb, incs, csn, alive, ord, active, pres, 
-                                ever, bad, i, op, res, f, x, pos, nx, key, 
-                                seen, snap >>
+                /\ UNCHANGED << mem, sb, incs, csn, alive, ord, member, active, 
+                                pres, ever, bad, i, op, res, f, x, pos, nx, 
+                                key, seen, snap >>
 
 hd_xp(self) == /\ pc[self] = "hd_xp"
                /\ IF TSO /\ PlainBuf
-                     THEN /\ sb' = [sb EXCEPT ![self] = Append(sb[self], <<(PrevOf(x[self])), p[self]>>)]
-                          /\ UNCHANGED << mem, pres, ever >>
+                     THEN /\ sb' = [sb EXCEPT ![self] = Append(sb[self], <<(PrevOf(x[self])), p[self], NoG>>)]
+                          /\ mem' = mem
                      ELSE /\ Drained(self)
                           /\ mem' = [mem EXCEPT ![(PrevOf(x[self]))] = p[self]]
-                          /\ pres' = PresUpd(pres, active, mem')
-                          /\ ever' = EverUpd(ever, active, mem')
                           /\ sb' = sb
                /\ acc' = Ev(self, "st", (PrevOf(x[self])), p[self], "-", "-")
-               /\ pc' = [pc EXCEPT ![self] = "hd_ldn2"]
-               /\ UNCHANGED << incs, csn, alive, ord, active, bad, i, op, res, 
-                               f, x, p, pos, nx, key, seen, snap >>
-
-hd_ldn2(self) == /\ pc[self] = "hd_ldn2"
-                 /\ x' = [x EXCEPT ![self] = Rd(self, (NextOf(op[self].n)))]
-                 /\ acc' = Ev(self, "ld", (NextOf(op[self].n)), "-", "-", Rd(self, (NextOf(op[self].n))))
-                 /\ pc' = [pc EXCEPT ![self] = "hd_ldp2"]
-                 /\ UNCHANGED << mem, sb, incs, csn, alive, ord, active, pres, 
-                                 ever, bad, i, op, res, f, p, pos, nx, key, 
-                                 seen, snap >>
+               /\ pc' = [pc EXCEPT ![self] = "hd_ldp2"]
+               /\ UNCHANGED << incs, csn, alive, ord, member, active, pres, 
+                               ever, bad, i, op, res, f, x, p, pos, nx, key, 
+                               seen, snap >>
 
 hd_ldp2(self) == /\ pc[self] = "hd_ldp2"
                  /\ p' = [p EXCEPT ![self] = Rd(self, (PrevOf(op[self].n)))]
                  /\ acc' = Ev(self, "ld", (PrevOf(op[self].n)), "-", "-", Rd(self, (PrevOf(op[self].n))))
+                 /\ pc' = [pc EXCEPT ![self] = "hd_ldn2"]
+                 /\ UNCHANGED << mem, sb, incs, csn, alive, ord, member, 
+                                 active, pres, ever, bad, i, op, res, f, x, 
+                                 pos, nx, key, seen, snap >>
+
+hd_ldn2(self) == /\ pc[self] = "hd_ldn2"
+                 /\ x' = [x EXCEPT ![self] = Rd(self, (NextOf(op[self].n)))]
+                 /\ acc' = Ev(self, "ld", (NextOf(op[self].n)), "-", "-", Rd(self, (NextOf(op[self].n))))
                  /\ pc' = [pc EXCEPT ![self] = "hd_pub"]
-                 /\ UNCHANGED << mem, sb, incs, csn, alive, ord, active, pres, 
-                                 ever, bad, i, op, res, f, x, pos, nx, key, 
-                                 seen, snap >>
+                 /\ UNCHANGED << mem, sb, incs, csn, alive, ord, member, 
+                                 active, pres, ever, bad, i, op, res, f, p, 
+                                 pos, nx, key, seen, snap >>
 
 hd_pub(self) == /\ pc[self] = "hd_pub"
                 /\ IF TSO
-                      THEN /\ sb' = [sb EXCEPT ![self] = Append(sb[self], <<(NextOf(p[self])), x[self]>>)]
-                           /\ UNCHANGED << mem, pres, ever >>
+                      THEN /\ sb' = [sb EXCEPT ![self] = Append(sb[self], <<(NextOf(p[self])), x[self], (Rem(op[self].n))>>)]
+                           /\ UNCHANGED << mem, member, pres, ever >>
                       ELSE /\ mem' = [mem EXCEPT ![(NextOf(p[self]))] = x[self]]
-                           /\ pres' = PresUpd(pres, active, mem')
-                           /\ ever' = EverUpd(ever, active, mem')
+                           /\ member' = Apply(member, (Rem(op[self].n)))
+                           /\ pres' = PresUpd(pres, active, member')
+                           /\ ever' = EverUpd(ever, active, member')
                            /\ sb' = sb
                 /\ acc' = Ev(self, "st", (NextOf(p[self])), x[self], "-", "-")
                 /\ pc' = [pc EXCEPT ![self] = "t_ret"]
@@ -806,55 +825,58 @@ g_mb(self) == /\ pc[self] = "g_mb"
               /\ snap' = [snap EXCEPT ![self] = [r \in Threads |-> IF incs[r] THEN csn[r] ELSE 0]]
               /\ acc' = Ev(self, "mb", "-", "-", "-", "-")
               /\ pc' = [pc EXCEPT ![self] = "g_end"]
-              /\ UNCHANGED << mem, sb, incs, csn, alive, ord, active, pres, 
-                              ever, bad, i, op, res, f, x, p, pos, nx, key, 
-                              seen >>
+              /\ UNCHANGED << mem, sb, incs, csn, alive, ord, member, active, 
+                              pres, ever, bad, i, op, res, f, x, p, pos, nx, 
+                              key, seen >>
 
 g_end(self) == /\ pc[self] = "g_end"
                /\ Drained(self) /\ GpDone(snap[self])
                /\ alive' = [alive EXCEPT ![op[self].n] = FALSE]
                /\ acc' = Ev(self, "gp_end", "-", "-", "-", "-")
                /\ pc' = [pc EXCEPT ![self] = "t_ret"]
-               /\ UNCHANGED << mem, sb, incs, csn, ord, active, pres, ever, 
-                               bad, i, op, res, f, x, p, pos, nx, key, seen, 
-                               snap >>
+               /\ UNCHANGED << mem, sb, incs, csn, ord, member, active, pres, 
+                               ever, bad, i, op, res, f, x, p, pos, nx, key, 
+                               seen, snap >>
 
 r_lock(self) == /\ pc[self] = "r_lock"
                 /\ incs' = [incs EXCEPT ![self] = TRUE]
                 /\ csn' = [csn EXCEPT ![self] = csn[self] + 1]
                 /\ acc' = Ev(self, "rlock", "-", "-", "-", "-")
                 /\ pc' = [pc EXCEPT ![self] = "r_first"]
-                /\ UNCHANGED << mem, sb, alive, ord, active, pres, ever, bad, 
-                                i, op, res, f, x, p, pos, nx, key, seen, snap >>
+                /\ UNCHANGED << mem, sb, alive, ord, member, active, pres, 
+                                ever, bad, i, op, res, f, x, p, pos, nx, key, 
+                                seen, snap >>
 
 r_first(self) == /\ pc[self] = "r_first"
                  /\ pos' = [pos EXCEPT ![self] = Rd(self, (NextOf(LH)))]
                  /\ acc' = Ev(self, "ld", (NextOf(LH)), "-", "-", Rd(self, (NextOf(LH))))
                  /\ IF pos'[self] = End
                        THEN /\ seen' = [seen EXCEPT ![self] = <<>>]
+                            /\ bad' = (bad \cup EndBad(member, <<>>))
                             /\ pc' = [pc EXCEPT ![self] = "r_unlock"]
-                            /\ UNCHANGED << active, pres, ever, bad >>
+                            /\ UNCHANGED << active, pres, ever >>
                        ELSE /\ IF pos'[self] \notin Nodes
                                   THEN /\ seen' = [seen EXCEPT ![self] = <<>>]
                                        /\ bad' = (bad \cup {"traversal reached a wild pointer"})
                                        /\ pc' = [pc EXCEPT ![self] = "r_unlock"]
                                        /\ UNCHANGED << active, pres, ever >>
                                   ELSE /\ active' = [active EXCEPT ![self] = TRUE]
-                                       /\ pres' = [pres EXCEPT ![self] = ReachSet(mem)]
-                                       /\ ever' = [ever EXCEPT ![self] = ReachSet(mem)]
-                                       /\ bad' = (bad \cup VisitBad(ReachSet(mem), <<>>, pos'[self]))
+                                       /\ pres' = [pres EXCEPT ![self] = member]
+                                       /\ ever' = [ever EXCEPT ![self] = member]
+                                       /\ bad' = (bad \cup VisitBad(member, <<>>, pos'[self]))
                                        /\ seen' = [seen EXCEPT ![self] = <<pos'[self]>>]
                                        /\ pc' = [pc EXCEPT ![self] = "r_key"]
-                 /\ UNCHANGED << mem, sb, incs, csn, alive, ord, i, op, res, f, 
-                                 x, p, nx, key, snap >>
+                 /\ UNCHANGED << mem, sb, incs, csn, alive, ord, member, i, op, 
+                                 res, f, x, p, nx, key, snap >>
 
 r_key(self) == /\ pc[self] = "r_key"
                /\ key' = [key EXCEPT ![self] = Rd(self, (KeyOf(pos[self])))]
                /\ acc' = Ev(self, "ld", (KeyOf(pos[self])), "-", "-", Rd(self, (KeyOf(pos[self]))))
                /\ bad' = (bad \cup DeadBad(pos[self]) \cup (IF key'[self] # KeyVal(pos[self]) THEN {"payload not initialised"} ELSE {}))
                /\ pc' = [pc EXCEPT ![self] = "r_next"]
-               /\ UNCHANGED << mem, sb, incs, csn, alive, ord, active, pres, 
-                               ever, i, op, res, f, x, p, pos, nx, seen, snap >>
+               /\ UNCHANGED << mem, sb, incs, csn, alive, ord, member, active, 
+                               pres, ever, i, op, res, f, x, p, pos, nx, seen, 
+                               snap >>
 
 r_next(self) == /\ pc[self] = "r_next"
                 /\ nx' = [nx EXCEPT ![self] = Rd(self, (NextOf(pos[self])))]
@@ -870,24 +892,24 @@ r_next(self) == /\ pc[self] = "r_next"
                       ELSE /\ active' = [active EXCEPT ![self] = FALSE]
                            /\ pc' = [pc EXCEPT ![self] = "r_unlock"]
                            /\ UNCHANGED << pos, seen >>
-                /\ UNCHANGED << mem, sb, incs, csn, alive, ord, pres, ever, i, 
-                                op, res, f, x, p, key, snap >>
+                /\ UNCHANGED << mem, sb, incs, csn, alive, ord, member, pres, 
+                                ever, i, op, res, f, x, p, key, snap >>
 
 r_unlock(self) == /\ pc[self] = "r_unlock"
                   /\ incs' = [incs EXCEPT ![self] = FALSE]
                   /\ res' = [res EXCEPT ![self] = Join(seen[self])]
                   /\ acc' = Ev(self, "runlock", "-", "-", "-", "-")
                   /\ pc' = [pc EXCEPT ![self] = "t_ret"]
-                  /\ UNCHANGED << mem, sb, csn, alive, ord, active, pres, ever, 
-                                  bad, i, op, f, x, p, pos, nx, key, seen, 
-                                  snap >>
+                  /\ UNCHANGED << mem, sb, csn, alive, ord, member, active, 
+                                  pres, ever, bad, i, op, f, x, p, pos, nx, 
+                                  key, seen, snap >>
 
 t_ret(self) == /\ pc[self] = "t_ret"
                /\ i' = [i EXCEPT ![self] = i[self] + 1]
                /\ pc' = [pc EXCEPT ![self] = "t_top"]
-               /\ UNCHANGED << mem, sb, acc, incs, csn, alive, ord, active, 
-                               pres, ever, bad, op, res, f, x, p, pos, nx, key, 
-                               seen, snap >>
+               /\ UNCHANGED << mem, sb, acc, incs, csn, alive, ord, member, 
+                               active, pres, ever, bad, op, res, f, x, p, pos, 
+                               nx, key, seen, snap >>
 
 thr(self) == t_top(self) \/ t_disp(self) \/ a_key(self) \/ a_ldf(self)
                 \/ a_nn(self) \/ a_np(self) \/ a_fp(self) \/ a_pub(self)
@@ -899,8 +921,8 @@ thr(self) == t_top(self) \/ t_disp(self) \/ a_key(self) \/ a_ldf(self)
                 \/ rp_pub(self) \/ rp_ldn2(self) \/ rp_xp(self)
                 \/ h_key(self) \/ h_ldf(self) \/ h_nn(self) \/ h_np(self)
                 \/ h_fp(self) \/ h_pub(self) \/ hd_ldn(self)
-                \/ hd_ldp(self) \/ hd_xp(self) \/ hd_ldn2(self)
-                \/ hd_ldp2(self) \/ hd_pub(self) \/ g_mb(self)
+                \/ hd_ldp(self) \/ hd_xp(self) \/ hd_ldp2(self)
+                \/ hd_ldn2(self) \/ hd_pub(self) \/ g_mb(self)
                 \/ g_end(self) \/ r_lock(self) \/ r_first(self)
                 \/ r_key(self) \/ r_next(self) \/ r_unlock(self)
                 \/ t_ret(self)
@@ -915,6 +937,9 @@ Spec == /\ Init /\ [][Next]_vars
 \* END TRANSLATION
 
 AllDone == \A t \in Threads : pc[t] = "Done"
+\* ---- the abstract list and its representation in shared memory
+AbsSeq == Filter(ord, member)
+MemConsistent == ReachSeq(mem) = AbsSeq
 \* ---- C18 clauses
 NoFreedAccess == "dereferenced a freed node" \notin bad
 Initialised   == "payload not initialised" \notin bad
